@@ -76,8 +76,8 @@ def check(ctx, cases, refs):
 def run(ctx):
     thorough = ctx.tier == "thorough"
     invs = ["CacheSound", "ProbeIsPure", "RestoreRestores"]
-    maxops = 4 if thorough else 3
-    ctx.tlc("GlobalState", {"MaxOps": maxops + 1, "Fault": "none", "EmitCases": False}, invariants=invs)
+    maxops = 9 if thorough else 4
+    ctx.tlc("GlobalState", {"MaxOps": maxops + 1, "Fault": "none", "EmitCases": False}, invariants=invs, view="LastOnly")
     ctx.tlc("GlobalState", {"MaxOps": 2, "Fault": "none", "EmitCases": False}, invariants=invs, coverage=True, count=False)
     ctx.require_actions(["SetMC", "RestoreMC", "ClearCache", "SetUseCache", "ParseOther", "MakeTRS", "Mutate", "Hold", "UseCfg", "AskLayout", "Probe"])
     for fault in ("share_dict", "freeze_default", "held_keeps_defaults", "cfg_obj_written", "layout_remembered"):
